@@ -49,7 +49,9 @@ import (
 // is in flight and the allowance is 0 here (the in-flight allowance is exercised in part 2).
 //
 // Part 2 (scenarios cron-claim-*, vsched.Explore): N scheduler instances ("nodes", real
-// newScheduler + real go-quartz) whose ActorSystem.getCluster() returns a fake cluster.Cluster that
+// newScheduler + real go-quartz), each on its own node-side actorSystem (c19NewNode: cluster engine wired,
+// fully started, or - scenarios *-Kstarting - still inside ActorSystem.Start when the schedule is
+// registered) whose getCluster() returns a fake cluster.Cluster that
 // implements only ClaimScheduleFire as an atomic put-if-absent with TTL on a store SHARED by the nodes,
 // with a gate in front of the atomic step. All nodes register the same cron schedule ("* * * * * *",
 // same reference) for one local target. Events: advance to the next tick (every node's tick handler
@@ -582,15 +584,23 @@ func (f *c19FakeCluster) ClaimScheduleFire(_ context.Context, key string, ttl ti
 	return err
 }
 
-// c19NodeSys is the real actor system seen through a node whose cluster engine is the fake.
-type c19NodeSys struct {
-	*actorSystem
-	cl cluster.Cluster
+// c19NewNode builds the actor-system side of one cluster node as the scheduler sees it: the cluster
+// engine is wired (the fake), clustering is enabled, NoSender is the hosting system's, and the node is
+// either fully started (`started` set) or still inside ActorSystem.Start (`starting` set, `started` not
+// yet: the state in which actors spawned/relocated onto a starting node run PreStart/PostStart). The real
+// getCluster / InCluster / NoSender of actorSystem run unchanged.
+func c19NewNode(host *actorSystem, cl cluster.Cluster, starting bool) *actorSystem {
+	ns := &actorSystem{cluster: cl, noSender: host.NoSender(), logger: log.DiscardLogger}
+	ns.clusterEnabled.Store(true)
+	if starting {
+		ns.starting.Store(true)
+	} else {
+		ns.started.Store(true)
+	}
+	return ns
 }
 
-func (s *c19NodeSys) getCluster() cluster.Cluster { return s.cl }
-
-func c19CronRun(t *testing.T, nodes, ticks int, withCancel bool, c *vsched.Chooser) vsched.Outcome {
+func c19CronRun(t *testing.T, nodes, ticks int, withCancel bool, startingNodes int, c *vsched.Chooser) vsched.Outcome {
 	var (
 		viol    []vsched.Violation
 		obs     []string
@@ -608,7 +618,8 @@ func c19CronRun(t *testing.T, nodes, ticks int, withCancel bool, c *vsched.Choos
 		store := &c19Store{entries: map[string]time.Time{}}
 		scheds := make([]*scheduler, nodes)
 		for i := range scheds {
-			ns := &c19NodeSys{actorSystem: sys, cl: &c19FakeCluster{store: store, node: i}}
+			// the last `startingNodes` nodes register the schedule while they are still starting
+			ns := c19NewNode(sys, &c19FakeCluster{store: store, node: i}, i >= nodes-startingNodes)
 			scheds[i] = newScheduler(log.DiscardLogger, time.Second, ns)
 			scheds[i].Start(ctx)
 			if err := scheds[i].ScheduleWithCron(&c19Tick{inst: i}, pid, "* * * * * *", WithReference("cron")); err != nil {
@@ -704,6 +715,15 @@ func c19CronRun(t *testing.T, nodes, ticks int, withCancel bool, c *vsched.Choos
 					}
 				}
 				store.mu.Unlock()
+				// no claim was released during this step: nothing may have been delivered
+				got := tgt.snapshot()
+				direct := map[int]int{}
+				for _, d := range got[delivered:] {
+					direct[d.inst]++
+					fail("cron-tick-delivered-without-consulting-the-claim", "node%d delivered tick %d while no claim of it had been released (claims of this node pending for the tick: %d)", d.inst, r, arrived[d.inst])
+				}
+				perRound[r] += len(got) - delivered
+				delivered = len(got)
 				for nd := 0; nd < nodes; nd++ {
 					want := 1
 					if nd == 0 && cancelRound >= 0 {
@@ -714,8 +734,8 @@ func c19CronRun(t *testing.T, nodes, ticks int, withCancel bool, c *vsched.Choos
 						fail("cron-tick-handler-started-after-cancel-returned", "node0 called ClaimScheduleFire for tick %d although CancelSchedule had returned nil during tick %d", r, cancelRound)
 					case arrived[nd] > 1:
 						fail("cron-tick-handled-twice-on-one-node", "node%d called ClaimScheduleFire %d times for tick %d", nd, arrived[nd], r)
-					case arrived[nd] < want:
-						invalid = fmt.Sprintf("node%d did not reach its claim for tick %d (harness expectation)", nd, r)
+					case arrived[nd] < want && direct[nd] == 0:
+						invalid = fmt.Sprintf("node%d neither reached its claim nor delivered for tick %d (harness expectation)", nd, r)
 					}
 				}
 				obs = append(obs, fmt.Sprintf("tick%d", r))
@@ -810,23 +830,31 @@ func TestVerifC19(t *testing.T) {
 	}
 	start := time.Now()
 
-	// ---- part 2 first (small): the cron scenarios share at most 50% of the wall budget
+	// ---- part 2 first (small): the cron scenarios share at most 60% of the wall budget
 	type cfg struct {
 		nodes, ticks int
 		cancel       bool
 		faults       int // bound on injected claim-store errors
+		starting     int // number of nodes that register the schedule while still inside ActorSystem.Start
 	}
-	cfgs := vsched.Pick([]cfg{{2, 2, true, 1}, {3, 1, false, 1}, {3, 2, false, 1}}, []cfg{{2, 2, true, 1}, {2, 3, true, 0}, {3, 2, false, 1}, {3, 2, true, 0}})
+	cfgs := vsched.Pick(
+		[]cfg{{3, 1, false, 1, 0}, {3, 1, false, 1, 3}, {2, 2, false, 1, 1}, {2, 2, true, 1, 0}, {3, 2, false, 0, 0}},
+		[]cfg{{3, 1, false, 1, 0}, {3, 1, false, 1, 3}, {2, 2, false, 1, 1}, {2, 2, true, 1, 0}, {3, 2, false, 1, 0}, {3, 2, false, 1, 2}, {3, 2, true, 0, 0}, {2, 3, true, 0, 0}})
 	for k, cf := range cfgs {
 		cf := cf
 		name := fmt.Sprintf("cron-claim-%dnodes-%dticks", cf.nodes, cf.ticks)
 		if cf.cancel {
 			name += "-cancel"
 		}
-		dl := start.Add(time.Duration(0.5 * budget * float64(k+1) / float64(len(cfgs)) * float64(time.Second)))
+		if cf.starting > 0 {
+			name += fmt.Sprintf("-%dstarting", cf.starting)
+		}
+		// smallest first; together they may use at most 60% of the wall budget (the BFS keeps the rest)
+		_ = k
+		dl := start.Add(time.Duration(0.6 * budget * float64(time.Second)))
 		vsched.Explore(vsched.Config{Scenario: name, Bound: cf.faults, SplitDepth: 3, Deadline: dl, Params: map[string]any{
-			"nodes": cf.nodes, "ticks": cf.ticks, "cancel_on_node0": cf.cancel, "cron": "* * * * * *", "fault": "injected claim-store error (cost 1)", "fault_bound": cf.faults,
-		}}, func(c *vsched.Chooser) vsched.Outcome { return c19CronRun(t, cf.nodes, cf.ticks, cf.cancel, c) })
+			"nodes": cf.nodes, "ticks": cf.ticks, "cancel_on_node0": cf.cancel, "cron": "* * * * * *", "fault": "injected claim-store error (cost 1)", "fault_bound": cf.faults, "nodes_registering_while_starting": cf.starting,
+		}}, func(c *vsched.Chooser) vsched.Outcome { return c19CronRun(t, cf.nodes, cf.ticks, cf.cancel, cf.starting, c) })
 	}
 
 	// ---- part 1: every single operation first (depth 1), then the BFS proper whose first step is a pair
